@@ -45,21 +45,39 @@ def _strip_comments(src):
     return "".join(out)
 
 
-def forbidden_tokens():
-    """grep over lean/ sources (comments and string literals stripped). Returns list of (file, token)."""
-    hits = []
-    for root, _dirs, files in os.walk(LEAN_DIR):
-        if ".lake" in root:
+def _closure(prop):
+    """lean source files the property's theorem module transitively imports (inside the project) + the driver"""
+    seen, todo = set(), [os.path.join(LEAN_DIR, "DSV", "Props", f"{prop}.lean"), os.path.join(LEAN_DIR, "Driver.lean")]
+    while todo:
+        p = todo.pop()
+        if p in seen or not os.path.exists(p):
             continue
-        for fn in files:
-            if not fn.endswith(".lean"):
+        seen.add(p)
+        with open(p, encoding="utf-8") as f:
+            for line in f:
+                m = re.match(r"\s*import\s+(DSV(?:\.\w+)+)", line)
+                if m:
+                    todo.append(os.path.join(LEAN_DIR, *m.group(1).split(".")) + ".lean")
+    return sorted(seen)
+
+
+def forbidden_tokens(prop=None):
+    """grep over the lean sources a property depends on (comments and string literals stripped)."""
+    hits = []
+    if prop is not None:
+        files = _closure(prop)
+    else:
+        files = []
+        for root, _dirs, fs in os.walk(LEAN_DIR):
+            if ".lake" in root:
                 continue
-            p = os.path.join(root, fn)
-            with open(p, encoding="utf-8") as f:
-                src = _strip_comments(f.read())
-            src = re.sub(r'"(\\.|[^"\\])*"', '""', src)
-            for m in FORBIDDEN.finditer(src):
-                hits.append((os.path.relpath(p, LEAN_DIR), m.group(0).strip()))
+            files += [os.path.join(root, fn) for fn in fs if fn.endswith(".lean")]
+    for p in files:
+        with open(p, encoding="utf-8") as f:
+            src = _strip_comments(f.read())
+        src = re.sub(r'"(\\.|[^"\\])*"', '""', src)
+        for m in FORBIDDEN.finditer(src):
+            hits.append((os.path.relpath(p, LEAN_DIR), m.group(0).strip()))
     return hits
 
 
@@ -133,7 +151,7 @@ def audit(prop):
             extra = [a for a in details[n] if a not in ALLOWED_AXIOMS]
             if extra:
                 bad[n] = "axioms outside the allowed set: " + ", ".join(extra)
-    tokens = forbidden_tokens()
+    tokens = forbidden_tokens(prop)
     return {
         "theorems": names,
         "axioms": details,
